@@ -117,6 +117,14 @@ class StaticFileHandler(RequestHandler):
                     index_found = True
                     break
 
+            if index_found:
+                # The index file may itself be a symlink: it must not lead outside
+                file_path = file_path.resolve()
+                if not self._is_safe_path(file_path):
+                    return GeminiResponse(
+                        status=StatusCode.NOT_FOUND.value, meta="Not found"
+                    )
+
             if not index_found:
                 if self.enable_directory_listing:
                     # Generate directory listing
